@@ -19,17 +19,27 @@ type postAtom struct {
 	Val  bool
 }
 
+type postKey struct {
+	fn   *FuncInfo
+	mode string
+}
+
 type postInfo struct {
 	atoms  []postAtom
 	params map[types.Object]int // pointer parameter -> index (-1: receiver)
 }
 
-func (p *Program) calleePost(callee *FuncInfo) *postInfo {
+func (p *Program) calleePost(callee *FuncInfo) *postInfo { return p.calleePostMode(callee, "") }
+
+// calleePostMode: mode "" = facts at every normal return about objects reachable from pointer parameters;
+// mode "true"/"false" = facts at the returns of a boolean function that yield that constant, about any
+// parameter the callee does not re-bind (the value it had at the call).
+func (p *Program) calleePostMode(callee *FuncInfo, mode string) *postInfo {
 	if p.postCache == nil {
-		p.postCache = map[*FuncInfo]*postInfo{}
+		p.postCache = map[postKey]*postInfo{}
 		p.postBusy = map[*FuncInfo]bool{}
 	}
-	if pi, ok := p.postCache[callee]; ok {
+	if pi, ok := p.postCache[postKey{callee, mode}]; ok {
 		return pi
 	}
 	if p.postBusy[callee] || callee.Decl.Body == nil || callee.Obj == nil {
@@ -38,18 +48,30 @@ func (p *Program) calleePost(callee *FuncInfo) *postInfo {
 	p.postBusy[callee] = true
 	defer delete(p.postBusy, callee)
 	pi := &postInfo{params: map[types.Object]int{}}
-	p.postCache[callee] = pi
+	p.postCache[postKey{callee, mode}] = pi
 	sig := callee.Obj.Type().(*types.Signature)
 	isPtr := func(v *types.Var) bool {
 		_, ok := v.Type().Underlying().(*types.Pointer)
 		return ok
 	}
-	if rv := sig.Recv(); rv != nil && isPtr(rv) {
-		pi.params[rv] = -1
-	}
-	for i := 0; i < sig.Params().Len(); i++ {
-		if v := sig.Params().At(i); isPtr(v) {
-			pi.params[v] = i
+	if mode != "" {
+		if sig.Results().Len() != 1 {
+			return pi
+		}
+		if b, ok := sig.Results().At(0).Type().Underlying().(*types.Basic); !ok || b.Kind() != types.Bool {
+			return pi
+		}
+		for obj, idx := range p.stableParams(callee) {
+			pi.params[obj] = idx
+		}
+	} else {
+		if rv := sig.Recv(); rv != nil && isPtr(rv) {
+			pi.params[rv] = -1
+		}
+		for i := 0; i < sig.Params().Len(); i++ {
+			if v := sig.Params().At(i); isPtr(v) {
+				pi.params[v] = i
+			}
 		}
 	}
 	if len(pi.params) == 0 {
@@ -74,6 +96,22 @@ func (p *Program) calleePost(callee *FuncInfo) *postInfo {
 	for _, e := range g.Exits() {
 		if e.Kind == ExitPanic {
 			continue
+		}
+		if mode != "" {
+			rs, isR := e.Node.(*ast.ReturnStmt)
+			if !isR || len(rs.Results) != 1 {
+				pi.atoms = nil
+				return pi
+			}
+			tv, has := info.Types[rs.Results[0]]
+			if !has || tv.Value == nil {
+				// a return whose value is not a constant may be either: no conditional facts
+				pi.atoms = nil
+				return pi
+			}
+			if tv.Value.String() != mode {
+				continue
+			}
 		}
 		f, ok := facts.AtExit(e)
 		if !ok || f.dead {
@@ -128,6 +166,12 @@ func (p *Program) onlyParams(info *types.Info, e ast.Expr, params map[types.Obje
 	ast.Inspect(e, func(n ast.Node) bool {
 		switch x := n.(type) {
 		case *ast.SelectorExpr:
+			// a qualified package-level name (context.Canceled)
+			if id, isId := x.X.(*ast.Ident); isId {
+				if _, isPkg := info.Uses[id].(*types.PkgName); isPkg {
+					return false
+				}
+			}
 			// the field name itself is not a variable use
 			if !p.onlyParams(info, x.X, params) {
 				ok = false
@@ -137,7 +181,7 @@ func (p *Program) onlyParams(info *types.Info, e ast.Expr, params map[types.Obje
 			obj := info.Uses[x]
 			switch o := obj.(type) {
 			case *types.Var:
-				if _, isP := params[o]; !isP {
+				if _, isP := params[o]; !isP && !(o.Parent() != nil && o.Pkg() != nil && o.Parent() == o.Pkg().Scope()) {
 					ok = false
 				}
 			case *types.Const, *types.Builtin, *types.Nil, *types.TypeName:
@@ -534,4 +578,48 @@ func assignsTo(info *types.Info, body ast.Node, obj types.Object) bool {
 		return true
 	})
 	return found
+}
+
+// applyCondPost: the condition `h(args)` (a boolean function of this package) came out val.
+func (p *Program) applyCondPost(info *types.Info, n *Facts, cond ast.Expr, val bool) {
+	e := ast.Unparen(cond)
+	for {
+		if u, ok := e.(*ast.UnaryExpr); ok && u.Op == token.NOT {
+			e, val = ast.Unparen(u.X), !val
+			continue
+		}
+		break
+	}
+	c, ok := e.(*ast.CallExpr)
+	if !ok {
+		return
+	}
+	fn := calleeOf(info, c)
+	if fn == nil {
+		return
+	}
+	callee := p.FuncOf(fn)
+	if callee == nil || callee.Pkg != p.Root {
+		return
+	}
+	mode := "false"
+	if val {
+		mode = "true"
+	}
+	pi := p.calleePostMode(callee, mode)
+	if pi == nil || len(pi.atoms) == 0 {
+		return
+	}
+	sub := p.callSubst(callee, c)
+	for _, a := range pi.atoms {
+		complete := true
+		for obj := range pi.params {
+			if _, has := sub[obj]; !has && (mentionsParam(info, a.X, map[types.Object]int{obj: 0}) || mentionsParam(info, a.Y, map[types.Object]int{obj: 0})) {
+				complete = false
+			}
+		}
+		if complete {
+			n.setRel(a.Op, substParamsExpr(info, a.X, sub), substParamsExpr(info, a.Y, sub), a.Val)
+		}
+	}
 }
